@@ -837,3 +837,85 @@ def _reaches(c, a, b):
         seen.add(x)
         work.extend(c.succ.get(x, []))
     return False
+
+
+# ---- deciding tests on an option parameter ---------------------------------------------------
+def option_decider(prog, fn, var, value):
+    """decide(test) for `var == value` (a string option such as na_action): ==, !=, in / not in a literal container or a
+    module-level constant container; `not`, and/or with short-circuit; None when the test does not depend on var alone"""
+    def members(c):
+        if isinstance(c, (ast.Tuple, ast.List, ast.Set)) and all(is_str_const(e) for e in c.elts):
+            return {e.value for e in c.elts}
+        if isinstance(c, ast.Name):
+            kind, q = prog.resolve(fn.module, c.id)
+            if kind == "var":
+                mod, g = q.rsplit(".", 1)
+                vals = prog.modules[mod].globals.get(g, [])
+                if len(vals) == 1:
+                    v = vals[0]
+                    if isinstance(v, (ast.Tuple, ast.List, ast.Set)) and all(is_str_const(e) for e in v.elts):
+                        return {e.value for e in v.elts}
+                    if isinstance(v, ast.Dict) and all(k is not None and is_str_const(k) for k in v.keys):
+                        return {k.value for k in v.keys}
+        return None
+
+    def decide(t, _sx=None):
+        if isinstance(t, ast.UnaryOp) and isinstance(t.op, ast.Not):
+            r = decide(t.operand)
+            return None if r is None else not r
+        if isinstance(t, ast.BoolOp):
+            rs = [decide(v) for v in t.values]
+            if isinstance(t.op, ast.And):
+                if any(r is False for r in rs):
+                    return False
+                return True if all(r is True for r in rs) else None
+            if any(r is True for r in rs):
+                return True
+            return False if all(r is False for r in rs) else None
+        if isinstance(t, ast.Compare) and len(t.ops) == 1:
+            left, op, right = t.left, t.ops[0], t.comparators[0]
+            if isinstance(right, ast.Name) and right.id == var and is_str_const(left):
+                left, right = right, left
+            if isinstance(left, ast.Name) and left.id == var:
+                if isinstance(op, (ast.Eq, ast.NotEq)) and is_str_const(right):
+                    return (right.value == value) == isinstance(op, ast.Eq)
+                if isinstance(op, (ast.In, ast.NotIn)):
+                    m = members(right)
+                    if m is not None:
+                        return (value in m) == isinstance(op, ast.In)
+        return None
+
+    return decide
+
+
+def groupby_needs_sorted(prog, rep, rule, modules=None):
+    """itertools.groupby only merges ADJACENT equal keys: grouping a sequence that is not sorted by the same key splits a
+    group whenever its members are interleaved with others.  Every groupby(X, key) whose X is not sorted(..., key=<same key>)
+    is reported.  Returns the number of groupby calls seen."""
+    n = 0
+    for q, fn in sorted(prog.functions.items()):
+        if modules is not None and fn.module.name not in modules:
+            continue
+        if fn.parent is not None:
+            continue
+        defs = {}
+        for s in walk_local(fn.node):
+            if isinstance(s, ast.Assign) and len(s.targets) == 1 and isinstance(s.targets[0], ast.Name):
+                defs.setdefault(s.targets[0].id, []).append(s.value)
+        for c in calls_in(fn.node, local=False):
+            d = dotted(c.func) or ""
+            if d.split(".")[-1] != "groupby" or d.split(".")[0] not in ("itertools", "groupby"):
+                continue
+            n += 1
+            seq = c.args[0] if c.args else None
+            key = c.args[1] if len(c.args) > 1 else next((k.value for k in c.keywords if k.arg == "key"), None)
+            if isinstance(seq, ast.Name) and len(defs.get(seq.id, [])) == 1:
+                seq = defs[seq.id][0]
+            ok = isinstance(seq, ast.Call) and dotted(seq.func) == "sorted"
+            if ok:
+                skey = next((k.value for k in seq.keywords if k.arg == "key"), None)
+                ok = (key is None and skey is None) or (key is not None and skey is not None and unparse(key) == unparse(skey))
+            obl(rep, fn, c, rule, ok, f"`{short(c, 70)}` groups a sequence sorted by the same key", "",
+                f"`{short(c, 70)}`: groupby merges only adjacent items, and `{unparse(c.args[0]) if c.args else '?'}` is not sorted by that key - "
+                "members of one group that are not next to each other are treated as different groups")
+    return n
